@@ -63,7 +63,7 @@ def case_inputs(rng, th):
 	c, cl = per(lambda: rng.choice([0, 1, 2]))
 	K, Kl = per(lambda: rng.choice([0, 0, 5, 20, 50]), shape=rng.choice(['scalar', 'scalar', 'list']))
 	g, gl = per(lambda: rng.choice([1.0, 1.0, 0.9, 0.95, 0.5, 0.75]), shape=rng.choice(['scalar', 'scalar', 'list']))        # the discount factor may vary over the periods too
-	th_, tp_ = rng.choice([0, 1, 2]), rng.choice([0, 5, 20])
+	th_, tp_ = rng.choice([0, 1, 2, 0.5, 1.25]), rng.choice([0, 5, 20, 2.5])          # terminal rates need not be integers when the period rates are
 	kind = rng.choice(['normal', 'normal', 'P', 'UD', 'CD', 'mixed', 'mixed'])
 	if kind == 'normal':
 		mean, ml = per(lambda: rng.choice([5, 8, 12]))
@@ -86,6 +86,9 @@ def case_inputs(rng, th):
 		ml = [float(d.mean if d.mean is not None else d.demand_distribution.mean()) for d in dsl]
 		sl = [float(d.standard_deviation if d.standard_deviation is not None else d.demand_distribution.std()) for d in dsl]
 		kw = dict(demand_source=src)
+		if rng.random() < .4:
+			# demand_mean / demand_sd are documented to be ignored when a demand source is given
+			kw.update(demand_mean=rng.choice([3, 20]), demand_sd=rng.choice([1, 4]))
 	if kind == 'normal' and T >= 2 and rng.random() < .35:
 		# forward buying: purchase cost jumps after period 1 and holding is cheap, so the optimal first-period order-up-to level lies far
 		# above the initial truncation of the state space - the code must enlarge its grid and restart
@@ -255,15 +258,23 @@ def myopic_case(rep, rng):
 	"""Myopic bounds bracket the optimal levels to within one grid unit (per instance, labelled test)."""
 	from stockpyl.finite_horizon import finite_horizon_dp, myopic_bounds
 	T = rng.choice([2, 3, 4]); h = rng.choice([1, 2]); p = rng.choice([10, 20]); c = rng.choice([1, 2]); K = rng.choice([10, 50]); mean = rng.choice([8, 12]); sd = rng.choice([1, 2])
-	case = {'T': T, 'h': h, 'p': p, 'c': c, 'K': K, 'mean': mean, 'sd': sd}
+	th_ = rng.choice([h, h, 0.5, 1.5]); tp_ = rng.choice([p, p, 2.5])
+	case = {'T': T, 'h': h, 'p': p, 'c': c, 'K': K, 'mean': mean, 'sd': sd, 'terminal_h': th_, 'terminal_p': tp_}
 	rep.case('myopic_bounds', case, nontrivial=True)
 	try:
 		with warnings.catch_warnings():
 			warnings.simplefilter('ignore')
-			s, S, *_ = finite_horizon_dp(T, h, p, h, p, c, K, mean, sd)
-			S_under, S_over, s_under, s_over = myopic_bounds(T, h, p, h, p, c, K, mean, sd)
+			s, S, *_ = finite_horizon_dp(T, h, p, th_, tp_, c, K, mean, sd)
+			S_under, S_over, s_under, s_over = myopic_bounds(T, h, p, th_, tp_, c, K, mean, sd)
+			# the same numbers given as floats (1 vs 1.0) are the same instance
+			fl = myopic_bounds(T, float(h), float(p), float(th_), float(tp_), float(c), float(K), float(mean), float(sd))
+		for nm_, a_, b_ in zip(('S_underbar', 'S_overbar', 's_underbar', 's_overbar'), (S_under, S_over, s_under, s_over), fl):
+			if any(abs(float(x) - float(y)) > 1e-9 for x, y in zip(list(a_)[1:], list(b_)[1:])):
+				rep.diff('myopic_bounds', '%s differs between integer-valued and float-valued arguments of the same instance: %s vs %s' % (nm_, list(a_)[1:], list(b_)[1:]), case, oracle=True)
+				break
 		for t in range(1, T + 1):
-			if not (S_under[t] - 1 <= S[t] <= S_over[t] + 1) or not (s_under[t] - 1 <= s[t] <= s_over[t] + 1):
+			g_ = 1.05          # one grid unit, plus the shift the DP's integer discretisation of demand can cause at a boundary (seen: 1.008)
+			if not (S_under[t] - g_ <= S[t] <= S_over[t] + g_) or not (s_under[t] - g_ <= s[t] <= s_over[t] + g_):
 				rep.diff('myopic_bounds', 't=%d: s=%s S=%s outside myopic bounds s in [%s,%s], S in [%s,%s]' % (t, s[t], S[t], s_under[t], s_over[t], S_under[t], S_over[t]),
 						 case, oracle=True)
 				break
